@@ -451,3 +451,169 @@ def engine_inotify(tier, seed):
     for d in res['divergences']:
         d['tag'] = 'C17'
     return res
+
+
+# --------------------------------------------------------------------------- thread-level engines
+
+SUBMITMT_CFG = """SPECIFICATION Spec
+CONSTANTS
+    Threads = %(threads)s
+    Adds = %(adds)d
+    N = %(n)d
+    W = %(w)d
+    Start = %(start)d
+    Dev = %(dev)s
+INVARIANTS
+    NoOverrun
+    NoTornOrForeign
+    ExactlyOnceSoFar
+    AllDelivered
+CHECK_DEADLOCK FALSE
+"""
+
+TRACE_SUBMITMT_CFG = """SPECIFICATION TraceSpec
+CONSTANTS
+    Threads = %(threads)s
+    Adds = %(adds)d
+    N = %(n)d
+    W = 1048576
+    Start = 0
+    Dev = {}
+INVARIANTS
+    TraceInvariants
+    NotAtEnd
+CHECK_DEADLOCK FALSE
+"""
+
+
+def run_trace_validation(name, module, cfg_text, trace_path, timeout=900):
+    """TLC trace validation: accepted iff the invariant NotAtEnd is 'violated'
+    (the end of the recorded trace is reachable in the specification)."""
+    cfg = write_cfg(name, cfg_text)
+    env_backup = dict(os.environ)
+    os.environ['TRACE'] = trace_path
+    os.environ['JAVA_TOOL_OPTIONS'] = '-Xss1g -Dtlc2.tool.queue.IStateQueue=StateDeque'
+    try:
+        r = run_tlc(name, module, cfg, workers=1, timeout=timeout)
+    finally:
+        os.environ.clear()
+        os.environ.update(env_backup)
+    accepted = r['violated'] == 'NotAtEnd'
+    r['accepted'] = accepted
+    r['purpose'] = 'trace validation of recorded executions (accepted = end of trace reachable)'
+    if accepted:
+        r['ok'] = True
+        r['violated'] = None
+    return r
+
+
+def sched_run(binary, args, outdir, tag, model, timeout=1800):
+    os.makedirs(outdir, exist_ok=True)
+    out = os.path.join(outdir, 'out.jsonl')
+    p = subprocess.run(['timeout', str(timeout), binary] + args + ['--out', out], stdin=subprocess.DEVNULL,
+                       stdout=subprocess.DEVNULL, stderr=subprocess.PIPE)
+    recs, summary = [], None
+    if os.path.exists(out):
+        for line in open(out):
+            try:
+                j = json.loads(line)
+            except ValueError:
+                continue
+            if j.get('summary'):
+                summary = j
+            else:
+                j['tag'] = tag
+                j['model'] = model
+                recs.append(j)
+    return p.returncode, recs, summary, (p.stderr or b'').decode(errors='replace')[-400:]
+
+
+def engine_submitmt(tier, seed):
+    key = 'submitmt-%s-%s-%d' % (tier, tree_hash(), seed)
+    cached = cache_get(key)
+    if cached:
+        cached['cached'] = True
+        return cached
+    t0 = time.time()
+    res = {'engine': 'submitmt', 'tier': tier, 'tlc': [], 'replays': [], 'divergences': [], 'errors': [], 'samples': [],
+           'cached': False}
+    bindir = build_harness()
+    binary = os.path.join(bindir, 'sched_submit')
+    # 1. TLC: the contract at atomic-access granularity, every wrap position.
+    models = [dict(threads='{1, 2}', adds=2, n=1, w=4, start=0), dict(threads='{1, 2}', adds=2, n=1, w=4, start=3),
+              dict(threads='{1, 2}', adds=2, n=2, w=8, start=7), dict(threads='{1, 2, 3}', adds=1, n=2, w=8, start=6)]
+    if tier == 'thorough':
+        models += [dict(threads='{1, 2, 3}', adds=2, n=2, w=8, start=5), dict(threads='{1, 2}', adds=3, n=4, w=16, start=14)]
+    for i, m in enumerate(models):
+        cfg = write_cfg('submitmt_%d' % i, SUBMITMT_CFG % dict(m, dev='{}'))
+        r = run_tlc('submitmt_%d' % i, 'MC_SubmitMT', cfg, timeout=1800)
+        r['purpose'] = 'contract: %s' % m
+        res['tlc'].append(r)
+        if not r['ok']:
+            res['errors'].append('TLC %s: %s' % (r['name'], r['violated'] or r['error']))
+    # The pre-fix deviation must be refuted by the model (sanity of the invariants).
+    cfg = write_cfg('submitmt_dev', SUBMITMT_CFG % dict(models[0], dev='{"LockedCheckOffByOne"}'))
+    r = run_tlc('submitmt_dev', 'MC_SubmitMT', cfg, timeout=600)
+    r['purpose'] = 'sanity: deviation LockedCheckOffByOne must violate an invariant'
+    if not r['violated']:
+        res['errors'].append('SubmitMT: the off-by-one deviation no longer violates any invariant (vacuous model?)')
+    r['ok'] = True
+    res['tlc'].append(r)
+    # 2. The real code under every schedule with <= 2 preemptions.
+    runs = [dict(threads=2, adds=2, sqn=1, sq_init=0, mode='sqpoll', pre=2, trace=True),
+            dict(threads=2, adds=2, sqn=1, sq_init=0xFFFFFFFF, mode='sqpoll', pre=2),
+            dict(threads=2, adds=2, sqn=2, sq_init=0xFFFFFFFE, mode='sqpoll', pre=1),
+            dict(threads=2, adds=2, sqn=1, sq_init=0, mode='enter', pre=1),
+            dict(threads=3, adds=2, sqn=2, sq_init=0x7FFFFFFF, mode='sqpoll', pre=0, random=2000)]
+    if tier == 'thorough':
+        runs += [dict(threads=2, adds=3, sqn=2, sq_init=0xFFFFFFFD, mode='sqpoll', pre=2),
+                 dict(threads=3, adds=2, sqn=2, sq_init=0, mode='sqpoll', pre=1, random=20000),
+                 dict(threads=2, adds=2, sqn=2, sq_init=0xFFFFFFFF, mode='enter', pre=2),
+                 dict(threads=2, adds=2, sqn=1, sq_init=0, mode='enter', pre=2)]
+    for i, rn in enumerate(runs):
+        outdir = os.path.join(BUILD, 'replay', 'submitmt_%d' % i)
+        args = ['--threads', str(rn['threads']), '--adds', str(rn['adds']), '--sqn', str(rn['sqn']),
+                '--sq-init', str(rn['sq_init']), '--mode', rn['mode'], '--preemptions', str(rn['pre']),
+                '--max-exec', str(rn.get('maxexec', 60000 if tier == 'quick' else 1000000)), '--random', str(rn.get('random', 0)),
+                '--seed', str(seed + 1)]
+        trace_path = os.path.join(outdir, 'traces.jsonl')
+        if rn.get('trace'):
+            args += ['--trace-out', trace_path]
+        rc, recs, summary, err = sched_run(binary, args, outdir, 'C04', 'SubmitMT')
+        if summary is None:
+            res['errors'].append('sched_submit run %d died (rc %s): %s' % (i, rc, err))
+            continue
+        res['divergences'] += recs
+        res['replays'].append({'model': 'SubmitMT/real code under the baton scheduler', 'variant': json.dumps(rn), 'paths': summary['paths'],
+                               'steps': summary['steps'], 'diverged_paths': summary['diverged_paths'],
+                               'schedule_space_exhausted': summary.get('complete'), 'crashes': 0})
+        # 3. Recorded executions are behaviours of the specification (TLC trace validation).
+        if rn.get('trace') and os.path.exists(trace_path):
+            nd = os.path.join(outdir, 'trace.ndjson')
+            nev = ntr = 0
+            with open(nd, 'w') as f:
+                for line in open(trace_path):
+                    for ev in json.loads(line):
+                        f.write(json.dumps(ev) + '\n')
+                        nev += 1
+                    f.write(json.dumps({'ev': 'Reset', 'th': 0, 'head': 0, 'tail': 0, 'locked': 0, 'index': 0, 'len': 0}) + '\n')
+                    ntr += 1
+            if ntr and not recs:
+                tv = run_trace_validation('trace_submitmt', 'Trace_SubmitMT',
+                                          TRACE_SUBMITMT_CFG % dict(threads='{1, 2}', adds=rn['adds'], n=rn['sqn']), nd)
+                tv['traces'] = ntr
+                tv['events'] = nev
+                res['tlc'].append(tv)
+                if not tv['accepted']:
+                    if tv['error']:
+                        res['errors'].append('trace validation failed to run: %s' % tv['error'])
+                    else:
+                        res['divergences'].append({'tag': 'C04', 'model': 'SubmitMT', 'path': 0, 'step': 0,
+                                                   'field': 'recorded executions are not behaviours of SubmitMT (TLC trace validation rejected %s)' % nd,
+                                                   'expected': 'accepted', 'observed': 'rejected', 'trace_file': nd})
+                res['samples'].append({'model': 'SubmitMT', 'recorded_execution': json.loads(open(trace_path).readline())})
+    res['wall_s'] = round(time.time() - t0, 1)
+    res['divergences_total'] = len(res['divergences'])
+    if not res['errors']:
+        cache_put(key, res)
+    return res
